@@ -1112,6 +1112,8 @@ def abstract_cycle(view: View, cyc: dict) -> dict | None:
     ap = cyc.get("apply")
     if ap is None or cyc.get("event_type") == "DELETED" or "remaining_fns" not in ap:
         return None
+    if (cyc.get("mem_before") or {}).get("throttled"):
+        return None     # it first sits out the error throttler's pause: the memory it decides on is newer than the snapshot
     body = cyc["body"]
     labels, fins = _labels(body), _fins(body)
     mb = cyc.get("mem_before") or {}
@@ -1649,7 +1651,7 @@ def run_scenarios(ctx: Ctx, scenarios: list[dict], names: list[str | None]) -> N
             ab = abstract_cycle(view, cyc)
             key = (cyc["inc"], cyc.get("uid"))
             if ab is None:
-                ctx.count("S.cycles", "unobservable (DELETED event / cut short)")
+                ctx.count("S.cycles", "unobservable (DELETED event / cut short / throttled)")
                 if cyc.get("event_type") == "DELETED":
                     prev.pop(key, None)
                 continue
